@@ -233,6 +233,74 @@ def _lut_case(args):
     return cnt, out, nt
 
 
+def _node_case(args):
+    """Every node of a built-in table, in the table's own set-up (channel
+    width of the table, no pixelation correction): the value is the tabulated
+    one times one common factor - also for the nodes on the edge of the
+    support, which the probe cases above leave out as numerically ambiguous.
+    Evaluated as one batch, and the extreme nodes once more one by one."""
+    lut_id, = args
+    from dclab.features.emodulus import get_emodulus, load_lut
+    name = lut_id.partition(":")[2]
+    lut, meta = load_lut(name)
+    lut = np.array(lut)
+    featx = "area_um" if "area_um" in meta["column features"] else "volume"
+    out = []
+    cnt = 0
+    for setup in (dict(medium=10.0, flow_rate=0.04),
+                  dict(medium="CellCarrier", flow_rate=0.16,
+                       temperature=np.full(len(lut), 23.0),
+                       visc_model="buyukurganci-2022")):
+        kw = dict(deform=lut[:, 1].copy(), px_um=0, temperature=None,
+                  visc_model=None, lut_data=name,
+                  channel_width=meta.get("channel_width", 20.0))
+        kw.update(setup)
+        kw[featx] = lut[:, 0].copy()
+        case0 = {"kind": "node", "lut": lut_id,
+                 "setup": "numeric" if "visc_model" not in setup
+                 else "per-event-temperature"}
+        try:
+            got = np.asarray(get_emodulus(**kw))
+        except BaseException as e:
+            out.append(violation(GE, "exception", case0,
+                                 f"{type(e).__name__}: {e}",
+                                 {"lut": name, "exc": type(e).__name__}))
+            continue
+        cnt += len(lut)
+        ratio = got / lut[:, 2]
+        fac = np.nanmedian(ratio)
+        wrong = np.flatnonzero(np.isnan(got) | ~np.isclose(
+            ratio, fac, rtol=1e-9, atol=0))
+        for i in wrong[:25]:
+            out.append(violation(
+                GE, "nan-at-table-node" if np.isnan(got[i])
+                else "wrong-value-at-table-node",
+                dict(case0, node=int(i)),
+                f"{name} node {int(i)} ({featx}={lut[i, 0]!r}, deform="
+                f"{lut[i, 1]!r}, px_um=0, channel width of the table): got "
+                f"{got[i]!r}, tabulated {lut[i, 2]!r} x common factor "
+                f"{fac!r} ({len(wrong)} such nodes)",
+                {"lut": name, "node": int(i)}))
+        # the extreme nodes of each column, each on its own
+        ext = sorted({int(f(lut[:, c])) for c in (0, 1)
+                      for f in (np.argmin, np.argmax)})
+        for i in ext:
+            kw1 = dict(kw)
+            kw1["deform"] = lut[i:i + 1, 1].copy()
+            kw1[featx] = lut[i:i + 1, 0].copy()
+            if isinstance(kw1["temperature"], np.ndarray):
+                kw1["temperature"] = 23.0
+            one = float(np.asarray(get_emodulus(**kw1)).ravel()[0])
+            cnt += 1
+            if not (one == got[i] or (np.isnan(one) and np.isnan(got[i]))
+                    or np.isclose(one, got[i], rtol=1e-9, atol=0)):
+                out.append(violation(
+                    GE, "depends-on-batch", dict(case0, node=int(i)),
+                    f"{name} extreme node {i} alone: {one!r}, in the batch "
+                    f"of all nodes: {got[i]!r}", {"lut": name}))
+    return cnt, out, cnt
+
+
 def _resolve_lut(lut_id, scratch):
     from dclab.features.emodulus import load
     kind, _, name = lut_id.partition(":")
@@ -463,6 +531,8 @@ def run(ctx):
     res = par.pmap(_lut_case, items)
     res += par.pmap(_law_case, [(lid, scratch) for lid in LUTS])
     res += par.pmap(_replace_case, [(scratch,)])
+    res += par.pmap(_node_case, [(lid,) for lid in LUTS
+                                 if lid.startswith("builtin:")])
     viols = []
     cnt = 0
     nontriv = 0
@@ -500,6 +570,9 @@ def replay(case, ctx):
     if case["kind"] == "replace":
         _, vs = _replace_case((ctx.scratch,))
         return [v for v in vs if v["case"].get("how") == case.get("how")]
+    if case["kind"] == "node":
+        _, vs, _ = _node_case((case["lut"],))
+        return [v for v in vs if v["case"] == case]
     if case["kind"] == "lut":
         _, vs, _ = _lut_case((case["lut"], [case["cfg"]], None, ctx.scratch))
         return vs
